@@ -52,7 +52,7 @@ def metamorphic(ctx, tools, programs, n_edits):
     jobs = []
     meta = {}
     jid = 0
-    stats = {"relayout_hard": 0, "relayout_mixed": 0, "parens": 0, "trailing_comma": 0, "rename": 0, "crlf": 0}
+    stats = {"relayout_hard": 0, "relayout_mixed": 0, "parens": 0, "trailing_comma": 0, "rename": 0, "crlf": 0, "rename_rev": 0}
     for (name, src), t in zip(programs, toks):
         if "toks" not in t:
             continue
@@ -65,7 +65,7 @@ def metamorphic(ctx, tools, programs, n_edits):
         jid += 1
         for e in range(n_edits):
             r = rng.fork("%s/%d" % (name, e))
-            kind = ["relayout_hard", "relayout_mixed", "parens", "trailing_comma", "rename", "crlf"][e % 6]
+            kind = ["relayout_hard", "relayout_mixed", "parens", "trailing_comma", "rename", "crlf", "rename_rev"][e % 7]
             if kind == "relayout_hard":
                 new = W.relayout(lex, r, "hard")
             elif kind == "relayout_mixed":
@@ -80,8 +80,10 @@ def metamorphic(ctx, tools, programs, n_edits):
                 if ch == 0:
                     continue
                 new = " ".join(l2)
-            elif kind == "rename":
-                plan = W.rename_plan(lex, kinds, r)
+            elif kind in ("rename", "rename_rev"):
+                # rename_rev: deterministic renaming that reverses the alphabetical order of the renamed
+                # identifiers (anything ordered by name instead of by dependency/declaration shows up)
+                plan = W.rename_plan(lex, kinds, r if kind == "rename" else None)
                 if not plan:
                     continue
                 new = " ".join(W.apply_rename(lex, kinds, plan))
@@ -125,7 +127,7 @@ def metamorphic(ctx, tools, programs, n_edits):
                           "(contradicts c19_respacing_invariance on the implementation)" % name,
                           files={"before.wgsl": meta[base_id][2], "after.wgsl": src}, key="relayout-tokens:" + name)
             continue
-        if kind == "rename":
+        if kind in ("rename", "rename_rev"):
             # names differ: compare acceptance and non-debug SPIR-V only
             a2 = (a[0], a[1] if len(a) > 1 else None)
             b2 = (b[0], b[1] if len(b) > 1 else None)
@@ -219,7 +221,12 @@ def run(ctx):
     progs = nagarun.corpus()
     rng = ctx.rng.fork("progs")
     progs = rng.shuffle(progs)[:ctx.scale(70, 292)]
-    compared, skipped, stats = metamorphic(ctx, tools, progs, ctx.scale(6, 24))
+    # generated programs, declarations in reverse order (entry point first: forward references everywhere)
+    import wgslgen
+    for i in range(ctx.scale(25, 300)):
+        prog, _src = wgslgen.generate(rng.fork("gen%d" % i))
+        progs.append(("gen%d" % i, wgslgen.render(prog, reverse=(i % 2 == 0))))
+    compared, skipped, stats = metamorphic(ctx, tools, progs, ctx.scale(7, 28))
     ctx.cov["metamorphic"] = {"programs": len(progs), "edited_variants_compared": compared,
                               "skipped_token_changing_layouts": skipped, "edits": stats}
     ctx.cov["evaluations"] = ncmp + compared
